@@ -753,3 +753,7 @@ def replay(case):
         ch.pickle = real_pickle
 
 MANIFEST['text'] += ' Octal-looking plain values, equal-valued signed payloads of different type one after the other, and forged cookies presented to a debug-mode application are covered.'
+MANIFEST['text'] += ' An E-SCHED layer serves requests with genuine, forged, other and no signed cookie on two threads of one application under every schedule with <= 1 preemption; mutable signed values are read, edited in place and read again by the next request.'
+if 'E-SCHED' not in MANIFEST['engines']:
+    MANIFEST['engines'] = list(MANIFEST['engines']) + ['E-SCHED']
+MANIFEST['technique'] += '; stateless exploration of all two-thread schedules (preemption-bounded, source-line scheduling points) for the state the property could park on shared objects'
